@@ -13,7 +13,8 @@ let () =
         let next () = let t = toks.(!pos) in incr pos; t in
         let nz () = z_of_string (next ()) in
         let expect s = let t = next () in if t <> s then failwith ("expected " ^ s ^ " got " ^ t) in
-        let arch = nz () in
+        (* arch token + 65536 = big-endian dump: byte order is invisible to the model *)
+        let arch = z_of_int ((int_of_z (nz ())) land 0xffff) in
         let platform = nz () in
         let time = nz () in
         expect "T";
